@@ -180,6 +180,11 @@ func c04Generate(id int, seed uint64, region string, steps int) *c04hist {
 	if strings.HasPrefix(region, "return:") {
 		return c04Return(id, seed)
 	}
+	if strings.HasPrefix(region, "repeat:") {
+		var k int
+		fmt.Sscanf(region, "repeat:%d", &k)
+		return c04Repeat(id, seed, k)
+	}
 	if strings.HasPrefix(region, "escape:") {
 		var k int
 		fmt.Sscanf(region, "escape:%d", &k)
@@ -541,6 +546,15 @@ func runC04(args []string) error {
 		}
 	}
 	sm.Notes = append(sm.Notes, fmt.Sprintf("boundary stream: %d slicing cells (operand x lo x hi x max) and %d append cells (kind x destination) hit, each followed by writes through every possibly aliasing slice and an append; escape stream: %d cells (argument shape x escaping callee, call site executed 3 times in one activation); growth grid: %d cells (element type x capacity x number of values x form); return stream: %d cells (returned operand x deferred update)", nsl, nap, nesc, ngr, nret))
+	nrep, nord := 0, 0
+	for k := range sm.Distribution {
+		if strings.HasPrefix(k, "cell:repeat-order:") {
+			nord++
+		} else if strings.HasPrefix(k, "cell:repeat:") {
+			nrep++
+		}
+	}
+	sm.Notes = append(sm.Notes, fmt.Sprintf("repeated-site stream: %d cells (copy-yielding read expression x element type), %d cells x hit/miss orders of length 3 (same site executed 3-5 times in one activation, value mutated after printing, container printed at the end)", nrep, nord))
 	if len(sm.Samples) == 0 && len(hs) > 0 {
 		sm.Samples = append(sm.Samples, sm.CaseIndex[fmt.Sprint(hs[0].ID)])
 	}
@@ -633,6 +647,14 @@ func c04Plan(tier string, seed uint64) (ids []int, seeds []uint64, regions []str
 	}
 	// the return stream: returned operand x deferred update after the return statement
 	mk("return:0", 3)
+	// the repeated-site stream: copy-yielding read expression x element type x hit/miss order, the
+	// same site executed 3-5 times in one activation; 8 histories = every order of length 3 per cell
+	// (histories 8 and 9: the cells of v, ok := m[k], inside the region of finding C04-map-commaok-result-not-fresh)
+	// (history 10: the cells of v := <-c / v, ok := <-c, inside the region of finding C04-chan-recv-result-unaddressable)
+	// (history 11: the cells of v, ok := x.(T), inside the region of finding C04-typeassert-commaok-result-not-fresh)
+	for k := 0; k < 12; k++ {
+		mk(fmt.Sprintf("repeat:%d", k), 1)
+	}
 	return
 }
 
@@ -761,7 +783,7 @@ func c04GoRef(hs []*c04hist, timeout time.Duration) (map[int]outcome, error) {
 			if k < 0 {
 				return nil, fmt.Errorf("history %d has no main", h.ID)
 			}
-			body := "package main\n\n" + strings.Replace(h.Src[k:], "func main() {", fmt.Sprintf("func h%d() {", h.ID), 1)
+			body := "package main\n\nimport \"fmt\"\n\nvar _ = fmt.Sprint // (the repeated-site stream prints inside main)\n\n" + strings.Replace(h.Src[k:], "func main() {", fmt.Sprintf("func h%d() {", h.ID), 1)
 			if err := os.WriteFile(filepath.Join(dir, pkg, fmt.Sprintf("h%d.go", h.ID)), []byte(body), 0o644); err != nil {
 				return nil, err
 			}
